@@ -11,9 +11,12 @@ package synth
 import (
 	"errors"
 	"fmt"
+	"io/fs"
+	"path"
 	"reflect"
 	"regexp"
 	"strings"
+	"testing/fstest"
 	"time"
 )
 
@@ -1420,6 +1423,239 @@ func RefusedHandleCall(p string) string {
 	return h.Path()
 }
 
+// ---- path-sensitive ownership of a map field ----
+
+type Desc struct {
+	Name string
+	Ann  map[string]string
+}
+
+// AddMeta writes d.Ann only where, on every path, it was replaced by a map created here.
+func AddMeta(d Desc, meta map[string]string) (Desc, error) {
+	if len(meta) > 0 {
+		ann := make(map[string]string, len(d.Ann)+len(meta))
+		for k, v := range d.Ann {
+			ann[k] = v
+		}
+		d.Ann = ann
+	}
+	for k, v := range meta {
+		if strings.HasPrefix(k, "io.") {
+			return d, fmt.Errorf("reserved key %q", k)
+		}
+		if _, ok := d.Ann[k]; ok {
+			return d, fmt.Errorf("key %q already present", k)
+		}
+		d.Ann[k] = v
+	}
+	return d, nil
+}
+
+func UseAddMeta(name string, keys []string, val string) (string, int, string, int, error) {
+	orig := Desc{Name: name, Ann: map[string]string{"a": "1", "gone": "x"}}
+	meta := map[string]string{}
+	for _, k := range keys {
+		meta[k] = val
+	}
+	out, err := AddMeta(orig, meta)
+	if err != nil {
+		// how far the loop got depends on Go's map order: only what does not
+		return out.Name, -1, "", len(orig.Ann), err
+	}
+	return out.Name, len(out.Ann), out.Ann["a"] + out.Ann[name], len(orig.Ann), err
+}
+
+// RefusedOwnOutside: the write is not under the guard that made the map fresh.
+func RefusedOwnOutside(d Desc, meta map[string]string) Desc {
+	if len(meta) > 0 {
+		d.Ann = make(map[string]string)
+	}
+	d.Ann["x"] = "y"
+	return d
+}
+
+// RefusedOwnGuardChanged: the guard expression is assigned between the test and the loop.
+func RefusedOwnGuardChanged(d Desc, meta, other map[string]string) Desc {
+	if len(meta) > 0 {
+		d.Ann = make(map[string]string)
+	}
+	meta = other
+	for k, v := range meta {
+		d.Ann[k] = v
+	}
+	return d
+}
+
+// RefusedOwnLostInLoop: the field is given a foreign map inside the loop: later iterations write to it.
+func RefusedOwnLostInLoop(d Desc, meta, other map[string]string) Desc {
+	d.Ann = make(map[string]string)
+	for k, v := range meta {
+		d.Ann[k] = v
+		d.Ann = other
+	}
+	return d
+}
+
+// RefusedOwnReassigned: the fresh map is replaced by the caller's before the write.
+func RefusedOwnReassigned(d Desc, other map[string]string) Desc {
+	d.Ann = make(map[string]string)
+	if len(other) > 2 {
+		d.Ann = other
+	}
+	d.Ann["k"] = "v"
+	return d
+}
+
+// ---- promoted fields, a map parameter written and replaced, an errors.As target used through an oracle method ----
+
+type Inner struct {
+	Media string
+	N     int
+}
+
+type Outer struct {
+	Inner
+	Name string
+}
+
+func Promoted(media, name string, n int) (string, int) {
+	o := Outer{Inner: Inner{Media: media, N: n}, Name: name}
+	return o.Media + "/" + o.Name, o.N + len(o.Inner.Media)
+}
+
+// genAnn (NilIsEmpty) writes its map parameter and replaces it by a fresh map when it is nil.
+func genAnn(ann map[string]string, k string) (map[string]string, error) {
+	if k == "" {
+		return nil, errors.New("no key")
+	}
+	if ann == nil {
+		ann = make(map[string]string)
+	}
+	ann[k] = "v"
+	return ann, nil
+}
+
+func UseGenAnn(k string, pre bool) (int, string, error) {
+	var given map[string]string
+	if pre {
+		given = map[string]string{"p": "q"}
+	}
+	out, err := genAnn(given, k)
+	return len(out), out["p"] + out[k], err
+}
+
+// RefusedUseAfterConsume: the caller looks at its variable after genAnn may have replaced the map.
+func RefusedUseAfterConsume(k string) int {
+	given := map[string]string{}
+	_, _ = genAnn(given, k)
+	return len(given)
+}
+
+type RefError struct {
+	Op  string
+	Err error
+}
+
+func (e *RefError) Error() string { return e.Op }
+func (e *RefError) Unwrap() error { return e.Err }
+
+// IsDelete is an oracle over the error errors.As finds.
+func (e *RefError) IsDelete() bool { return e.Op == "delete" }
+
+// pushIt is an oracle: a *RefError, one wrapped by %w, another error, or nil.
+func pushIt(op string) error {
+	switch {
+	case op == "":
+		return nil
+	case strings.HasPrefix(op, "w:"):
+		return fmt.Errorf("push: %w", &RefError{Op: op[2:]})
+	case strings.HasPrefix(op, "a"):
+		return errors.New(op)
+	}
+	return &RefError{Op: op}
+}
+
+func AsTarget(op string) string {
+	if len(op) == 2 {
+		op = "delete"
+	} else if len(op) == 3 {
+		op = "w:delete"
+	}
+	err := pushIt(op)
+	if err != nil {
+		var re *RefError
+		if errors.As(err, &re) && re.IsDelete() {
+			return "deleted"
+		}
+		return "failed"
+	}
+	return "ok"
+}
+
+// ---- fs.WalkDir with the SkipDir / SkipAll protocol (oracle option Walk) ----
+
+// WalkFS is the file system the selftest walks: a MapFS whose directories named locked* fail to
+// list after their first entry.
+type WalkFS struct{ M fstest.MapFS }
+
+func (w WalkFS) Open(name string) (fs.File, error) { return w.M.Open(name) }
+
+func (w WalkFS) ReadDir(name string) ([]fs.DirEntry, error) {
+	es, err := w.M.ReadDir(name)
+	if err != nil {
+		return es, err
+	}
+	if strings.HasPrefix(path.Base(name), "locked") {
+		if len(es) > 1 {
+			es = es[:1]
+		}
+		return es, errors.New("locked")
+	}
+	return es, nil
+}
+
+// WalkList: every way the callback can answer: nil, an error, fs.SkipDir on a directory, fs.SkipDir on a
+// file (skips the rest of its directory), fs.SkipAll, and the second call that reports a ReadDir error.
+func WalkList(fsys fs.FS, root string) ([]string, int, error) {
+	if len(root)%4 != 1 {
+		root = "." // most of the time the whole tree
+	} else if len(root) == 1 {
+		root = "lockedx"
+	}
+	var seen []string
+	n := 0
+	err := fs.WalkDir(fsys, root, func(p string, d fs.DirEntry, err error) error {
+		n++
+		if err != nil {
+			if d == nil {
+				return fmt.Errorf("root: %w", err)
+			}
+			seen = append(seen, "!"+p)
+			if strings.HasSuffix(p, "x") {
+				return fs.SkipDir
+			}
+			return nil
+		}
+		name := d.Name()
+		if strings.HasPrefix(name, "skip") {
+			return fs.SkipDir
+		}
+		if name == "stop" {
+			return fs.SkipAll
+		}
+		if name == "bad" {
+			return errors.New("bad entry")
+		}
+		if d.IsDir() {
+			seen = append(seen, p+"/")
+		} else {
+			seen = append(seen, p)
+		}
+		return nil
+	})
+	return seen, n, err
+}
+
 // newRec is an oracle with FreshResults: the record it returns may be nil and is owned by the caller.
 func newRec(s string) (*Rec, error) {
 	if s == "" {
@@ -1589,7 +1825,7 @@ var Funcs = map[string]any{
 	"ArrayRange": ArrayRange, "TimeZero": TimeZero, "JoinCollapse": JoinCollapse,
 	"InOutPtr": InOutPtr, "Variadic": Variadic,
 	"ErrKind": ErrKind, "AnySwitch": AnySwitch, "Bytes": Bytes, "Bits": Bits, "UseHolder": UseHolder,
-	"UsePages": UsePages, "LocalIdentity": LocalIdentity, "UseStores": UseStores, "HandleNil": HandleNil, "UseBlob": UseBlob, "MsgLocal": MsgLocal, "IsSkip": IsSkip, "LinkedElem": LinkedElem, "TypeAlias": TypeAlias, "StoreOf": StoreOf, "UseFill": UseFill, "Effects": Effects, "EffectPages": EffectPages, "EffectTail": EffectTail, "OwnedPtr": OwnedPtr, "OwnedPtrPanics": OwnedPtrPanics,
+	"UsePages": UsePages, "LocalIdentity": LocalIdentity, "UseStores": UseStores, "WalkList": WalkList, "Promoted": Promoted, "UseGenAnn": UseGenAnn, "AsTarget": AsTarget, "UseAddMeta": UseAddMeta, "HandleNil": HandleNil, "UseBlob": UseBlob, "MsgLocal": MsgLocal, "IsSkip": IsSkip, "LinkedElem": LinkedElem, "TypeAlias": TypeAlias, "StoreOf": StoreOf, "UseFill": UseFill, "Effects": Effects, "EffectPages": EffectPages, "EffectTail": EffectTail, "OwnedPtr": OwnedPtr, "OwnedPtrPanics": OwnedPtrPanics,
 	"UseFinder": UseFinder, "UseFinderPanics": UseFinderPanics,
 }
 
